@@ -6,11 +6,18 @@ CHECK = {
              "allocation, inside host atomic read-modify-writes; per-thread budgets on the hot ones) and "
              "every pthread mutex lock/unlock (interposed); ALL schedules with <= B preemptions (quick 1, "
              "thorough 2) for every assignment of 3 events to the streams that uses >= 2 streams, x "
-             "{recorder+diagnostics, calorimeter+diagnostics with charge-partitioned initialisation, recorder with track re-indexing by particle type}; oracle = serial single-stream results. "
+             "six variants {rec: recorder+diagnostics; calo: SimpleCalo+diagnostics with charge-partitioned "
+             "initialisation; recsort: recorder with track re-indexing by particle type; recsortact: "
+             "re-indexing by along-step and step-limit action; recfield: uniform-field + Urban-MSC "
+             "along-step; recchk: StatusChecker attached}; the atomic read-modify-writes executed inside "
+             "ActionDiagnostic / StepDiagnostic / the post-step gather (SimpleCalo) have their own "
+             "per-thread budgets, separate from the thread-private atomics (track-id counter, secondary "
+             "stack); oracle = serial single-stream results. "
              "part tsan: every assignment of 3 events to 2 streams (8) and to 3 streams (27), plus one "
-             "event per stream for 4, 8 and 16 streams, x three variants (recorder + diagnostics; "
-             "SimpleCalo + diagnostics + init_charge; recorder + reindex_particle_type), each repeated with free-running threads that construct their "
-             "Steppers concurrently on one shared CoreParams, under ThreadSanitizer. "
+             "event per stream for 4, 8 and 16 streams (identity assignment and rotated by one), x the same "
+             "six variants, each repeated with free-running threads that construct their "
+             "Steppers concurrently on one shared CoreParams, under ThreadSanitizer. celer-sim's "
+             "Runner/Transporter are modelled by this pattern, not executed. "
              "non-trivial = a distinct (variant, stream count, assignment)."),
     "assumptions": [
         "the free-running pass samples OS schedules (ThreadSanitizer detects races on the accesses that "
